@@ -845,7 +845,59 @@ func checkQueryConverters(w *World, r *Result) {
 	r.cond(boolF != intF && boolF != strF, "AGR-C14k", fi.Name, "bool parameters have their own converter", w.Pos(kindSwitch.Pos()),
 		"the bool case formats differently from the numeric and the string case (false must become the empty string)",
 		"bool parameters are converted like another kind: `false` reaches the server as a non-empty string")
+	// numbers are sent as their decimal text, zero included: the numeric converter may not go through a JavaScript
+	// truthiness test (`x || d`, `x ? a : b`), for which 0 (and NaN) count as absent
+	var floatF string
+	for k, f := range formats {
+		if strings.HasSuffix(k, "BKFloat") {
+			floatF = f
+		}
+	}
+	for _, f := range []string{intF, floatF} {
+		if f == "" {
+			continue
+		}
+		truthy := strings.Contains(f, "||") || strings.Contains(f, " ? ")
+		r.cond(!truthy, "AGR-C14k", fi.Name, "numeric parameters are converted whatever their value", w.Pos(kindSwitch.Pos()),
+			"the numeric converter applies no truthiness test to the value",
+			"the converter of numeric parameters `"+f+"` tests the value for truthiness: 0 is falsy in JavaScript, so a parameter equal to zero is sent as the fallback (an empty string) instead of \"0\"")
+	}
 	if nret == 0 {
 		Undecided("AGR-C14k: asObjectKey returns nothing")
+	}
+	// the return statement of a generated method follows the flags of the contract, not the printed type: the text
+	// "Blob" / "never" can also be the name of a user type
+	gm := w.MustFunc("generator/typescript.generateMethod")
+	nb := 0
+	for _, cf := range calleeClosure(w, gm, 1) {
+		if cf.Pkg != gm.Pkg || cf.Decl.Body == nil {
+			continue
+		}
+		ast.Inspect(cf.Decl.Body, func(x ast.Node) bool {
+			lit, ok := x.(*ast.BasicLit)
+			if !ok || lit.Kind != token.STRING || !strings.Contains(lit.Value, "content-disposition") {
+				return true
+			}
+			nb++
+			byFlag := false
+			var seen []string
+			for _, c := range pathConds(cf.Decl, lit) {
+				if c.expr != nil {
+					seen = append(seen, es(c.expr))
+					if strings.HasSuffix(es(c.expr), ".IsReturnBlob") && c.truth {
+						byFlag = true
+					}
+				} else if c.text != "" {
+					seen = append(seen, c.text)
+				}
+			}
+			r.cond(byFlag, "AGR-C14k", cf.Name, "blob epilogue chosen by the contract's blob flag", w.Pos(lit.Pos()),
+				"the code reading the content-disposition header is emitted exactly under Contract.IsReturnBlob, the flag generateAxiosCall uses for responseType",
+				"the blob epilogue is emitted under {"+strings.Join(seen, ", ")+"} instead of Contract.IsReturnBlob: a JSON endpoint whose Go return type prints as that text (a user type named Blob) gets code that reads a header it never receives, while the request is still sent without responseType")
+			return true
+		})
+	}
+	if nb == 0 {
+		Undecided("AGR-C14k: the blob epilogue (content-disposition) was not found in generateMethod")
 	}
 }
